@@ -742,7 +742,11 @@ fn handle(inner: &Arc<Inner>, st: &mut ConnState, ctx: &ReqCtx, frame: &ReqFrame
     // bootstrap handled by the mock itself
     match &frame.body {
         ReqBody::Options => {
-            let spec = inner.nodes.read().unwrap()[st.node].clone();
+            // a node the cluster no longer reports behaves as decommissioned: the connection is closed
+            let Some(spec) = inner.nodes.read().unwrap().get(st.node).cloned() else {
+                let _ = tx.send(ConnCmd::Close(false));
+                return;
+            };
             send(tx, stream, RespBody::Supported(supported_options(inner, &spec, st.shard)));
             return;
         }
